@@ -1,18 +1,3 @@
-mod c12;
-mod c13;
-mod chunked;
-
 fn main() {
-    let args = vf_core::parse_args();
-    let level = "exploration";
-    let mut run = vf_core::Run::new(&args, level);
-    match args.property.as_str() {
-        "C12" => c12::run(&mut run),
-        "C13" => c13::run(&mut run),
-        other => {
-            eprintln!("vf-serde does not serve {other}");
-            std::process::exit(2);
-        },
-    }
-    run.finish_and_exit();
+    vf_serde::main_entry();
 }
